@@ -408,8 +408,8 @@ class C13:
             first = firsts[0]
             if part.startswith("print.ints"):
                 rep = ("(def x (scan-number %s))\n" % jdn(first) +
-                       "(printf \"string %%s  %%%%v %%v  %%%%j %%j  %%%%.17g %%.17g  %%%%d %%d\" (string x) x x x x)\n" +
-                       "(printf \"negated: string %%s  %%%%j %%j  %%%%.17g %%.17g\" (string (- x)) (- x) (- x))\n" +
+                       "(printf \"string %s  %%v %v  %%j %j  %%.17g %.17g  %%d %d\" (string x) x x x x)\n" +
+                       "(printf \"negated: string %s  %%j %j  %%.17g %.17g\" (string (- x)) (- x) (- x))\n" +
                        "(print \"expected every form to be exactly %s (and its negation)\")\n" % first)
                 self.chk.violation(sig="%s:integer-text:%s" % (part, first),
                                    what="integer %s (or its negation) does not print/read back exactly "
